@@ -286,7 +286,7 @@ func genSchedScenario(t *rapid.T) schedCase {
 	c := schedCase{}
 	n := rapid.IntRange(2, 4).Draw(t, "ntests")
 	names := genNamePool(t, n+1)
-	vals := []string{"v1", "v2", "a longer value\nwith lines", "", "x"}
+	vals := []string{"v1", "v2", "a longer value\nwith lines", "", "x", "three\nline\nvalue", "l1\nl2\nl3\nl4"}
 	for i := rapid.IntRange(0, 2).Draw(t, "nforeign"); i > 0; i-- {
 		c.Foreign = append(c.Foreign, Entry{ID: BS(entryID(names[n], i)), Body: BS(rapid.SampledFrom(vals).Draw(t, "fbody"))})
 	}
@@ -367,8 +367,8 @@ var exhaustiveScenarios = []schedCase{
 		{Name: "TestA", Calls: []schedCall{{Kind: "update", Val: "new", Old: "old"}}},
 		{Name: "TestB", Calls: []schedCall{{Kind: "create", Val: "bval"}}}}},
 	{Tests: []schedTest{
-		{Name: "TestA", Calls: []schedCall{{Kind: "update", Val: "new a", Old: "old a"}}},
-		{Name: "TestAB", Calls: []schedCall{{Kind: "update", Val: "new b", Old: "old b"}}}}},
+		{Name: "TestA", Calls: []schedCall{{Kind: "update", Val: "new a", Old: "old a\nwith three\nlines"}}},
+		{Name: "TestAB", Calls: []schedCall{{Kind: "update", Val: "new b\nnow longer", Old: "old b"}}}}},
 	{Foreign: []Entry{{ID: "TestC - 1", Body: "keep"}}, Tests: []schedTest{
 		{Name: "TestA", Calls: []schedCall{{Kind: "create", Val: "a1"}, {Kind: "create", Val: "a2"}}},
 		{Name: "TestB", Calls: []schedCall{{Kind: "create", Val: "b1"}}}}},
